@@ -5,3 +5,4 @@ CONSTANTS
   Conns <- K2
   Ports <- P3
   MaxSteps = 30
+  MaxSubs = 3
